@@ -295,6 +295,14 @@ class Runner:
         return self.results
 
 
+# witness families whose only failures are open known findings of their own property: excluded from the mixed corpora of C06/C07
+OPEN_FINDING_FAMILIES = ('layout.to', 'reduce.none_of')
+
+
+def in_open_finding_family(w):
+    return any(w.family.startswith(p) for p in OPEN_FINDING_FAMILIES)
+
+
 # ------------------------------------------------------------------ known findings
 def load_known():
     p = os.path.join(VERIF, 'known_findings.json')
